@@ -438,6 +438,64 @@ pub fn family_lifetime() -> Vec<Program> {
     out
 }
 
+/// C07 / C08 family: a reactor loses its remaining triggers *while it is running* (its own commands despawn the watched
+/// entities or revoke its token) and then starts another reaction, so the despawns are noticed while the reactor is
+/// unavailable: the despawn reactions for it wait for the end of its run and are the only thing that keeps it alive.
+pub fn family_lifetime_inrun() -> Vec<Program> {
+    let mut out = vec![];
+    // (bundle, act that starts the first run)
+    let shapes: Vec<(Vec<Trig>, Act)> = vec![
+        (vec![Trig::Desp(0), Trig::Desp(1)], Act::DespawnEnt(0)),
+        (vec![Trig::Desp(0), Trig::Desp(1), Trig::Desp(2)], Act::DespawnEnt(0)),
+        (vec![Trig::Bc(0), Trig::Desp(1)], Act::Broadcast(0)),
+        (vec![Trig::Bc(0), Trig::Desp(1), Trig::Desp(2)], Act::Broadcast(0)),
+        (vec![Trig::Ee(0, 0), Trig::Desp(0), Trig::Desp(1)], Act::EntityEv(0, 0)),
+        (vec![Trig::ERem(0, 0), Trig::Desp(1)], Act::Remove(0, 0)),
+    ];
+    // what the first run of the reactor does
+    let bodies: Vec<Vec<Act>> = vec![
+        vec![Act::DespawnEnt(1), Act::Broadcast(1)],
+        vec![Act::DespawnEnt(1), Act::DespawnEnt(2), Act::Broadcast(1)],
+        vec![Act::DespawnEnt(2), Act::DespawnEnt(1), Act::Broadcast(1), Act::Broadcast(1)],
+        vec![Act::DespawnEnt(1), Act::Revoke(0), Act::Broadcast(1)],
+        vec![Act::DespawnEnt(0), Act::DespawnEnt(1), Act::EntityEv(3, 0)],
+        vec![Act::DespawnEnt(1), Act::Gc, Act::DespawnEnt(2), Act::Broadcast(1)],
+    ];
+    // other reactors watching the same entities
+    let others: Vec<Vec<Act>> = vec![
+        vec![],
+        vec![Act::Register { mode: Mode::Revokable, once: true, bundle: vec![Trig::Desp(1)], flavour: Flavour::Ord, script: 0, form: 1 }],
+        vec![reg(Mode::Cleanup, vec![Trig::Desp(1), Trig::Desp(2)], 0)],
+        vec![reg(Mode::Cleanup, vec![Trig::Desp(2)], 0), reg(Mode::Persistent, vec![Trig::Desp(1)], 0)],
+    ];
+    for (mi, mode) in [Mode::Cleanup, Mode::Revokable, Mode::Persistent].iter().enumerate() {
+        for (si, (shape, start)) in shapes.iter().enumerate() {
+            for (bi, body) in bodies.iter().enumerate() {
+                for (oi, other) in others.iter().enumerate() {
+                    for first in [false, true] {
+                        // script 0: empty (listeners, other reactors); script 1: the reactor under test
+                        let scripts = vec![script(vec![], false), script(vec![body.clone()], false)];
+                        let r = reg(*mode, shape.clone(), 1);
+                        let listeners = vec![reg(Mode::Persistent, vec![Trig::Bc(1)], 0), reg(Mode::Persistent, vec![Trig::Ee(3, 0)], 0)];
+                        let mut setup = vec![];
+                        if first {
+                            setup.push(r.clone());
+                        }
+                        setup.extend(listeners);
+                        setup.extend(other.iter().cloned());
+                        if !first {
+                            setup.push(r);
+                        }
+                        let ops = vec![sys(setup), sys(vec![start.clone()]), sys(vec![Act::Mark]), sys(vec![Act::Broadcast(0), Act::Broadcast(1)])];
+                        out.push(prog(format!("lifetime-inrun-m{mi}-s{si}-b{bi}-o{oi}-first{first}"), scripts, ops, ALL_COMPS));
+                    }
+                }
+            }
+        }
+    }
+    out
+}
+
 /// C08 family: histories of insert / remove / re-insert / despawn between polls with 1..3 reactors.
 pub fn family_removals() -> Vec<Program> {
     let mut out = vec![];
@@ -885,10 +943,15 @@ pub fn directed_for(prop: &str, thorough: bool) -> Vec<Program> {
         "C04" => family_probes(),
         "C05" => family_listeners(),
         "C06" => family_revocation(),
-        "C07" => family_lifetime(),
+        "C07" => {
+            let mut v = family_lifetime();
+            v.extend(family_lifetime_inrun());
+            v
+        }
         "C08" => {
             let mut v = family_removals();
             v.extend(family_removals_app());
+            v.extend(family_lifetime_inrun());
             v
         }
         "C09" => {
